@@ -21,14 +21,26 @@ SYN_FAULT = ("syntax", "PROGRAM synbad VAR x : INT END_VAR x := 1; END_PROGRAM\n
 
 
 def project_semantic(probe, files):
-    ops = [{"op": "change", "file": n, "text": t} for n, t in files] + [{"op": "semantic"}]
+    """Loads the files into one FileBackedProject and asks for the verdict three times: straight away, again, and
+    once more after one of the files was re-sent unchanged.  The set fails only if every answer is a failure; the
+    last failing answer with the most codes is returned (an answer that says OK wins: it is what a user would see)."""
+    ops = [{"op": "change", "file": n, "text": t} for n, t in files] + [{"op": "semantic"}, {"op": "semantic"}]
+    if files:
+        ops += [{"op": "change", "file": files[0][0], "text": files[0][1]}, {"op": "semantic"}]
     obs = probe.run({"op": "project", "ops": ops})
     if obs.get("watchdog"):
         return None, obs
     if "died" in obs or "panic" in obs:
         return "crash", obs
-    r = obs["results"][-1]
-    return r, obs
+    sems = [r for r in obs["results"] if r.get("op") == "semantic"]
+    for r in sems:
+        if r.get("ok"):
+            return dict(r, repeated_call_accepted=(r is not sems[0])), obs
+    codes0 = {d["code"] for d in sems[0].get("diags", [])}
+    for r in sems[1:]:
+        if not codes0 <= {d["code"] for d in r.get("diags", [])}:
+            return r, obs
+    return sems[0], obs
 
 
 def conservation(obs):
@@ -168,7 +180,7 @@ def shard(shard_i, nshards, payload):
             named = [d for d in decls if d["k"] in ("enum", "struct", "subrange", "array", "fb", "program", "function", "alias")]
             rng.shuffle(named)
             for d in named[:payload["dups_per_unit"]]:
-                for how in ("same-kind", "other-kind", "same-kind-recased", "other-kind-recased"):
+                for how in ("same-kind", "other-kind", "same-kind-recased", "other-kind-recased", "identical"):
                     orig_name = d["name"]
                     if how.endswith("-recased"):
                         # identifiers are case-insensitive: a twin spelled in another letter case is the same name
@@ -177,7 +189,10 @@ def shard(shard_i, nshards, payload):
                         recased = True
                     else:
                         recased = False
-                    if how == "same-kind":
+                    if how == "identical":
+                        # the very same declaration text a second time (another file may hold a copy)
+                        twin = {"k": "raw", "text": vgen.render_decl(d)}
+                    elif how == "same-kind":
                         twin = dict(d)
                         if d["k"] in ("fb", "program"):
                             twin = {"k": "raw", "text": ("FUNCTION_BLOCK" if d["k"] == "fb" else "PROGRAM") + " " + d["name"] +
